@@ -49,6 +49,8 @@ func runC05(cx *Ctx, r *Report) {
 	cx.rewardAfterUpdate(r, per)
 	cx.scanPrefixClosedRule(r, []string{"farm"}, "scan-prefix-closed")
 	cx.keyEncodingUniformRule(r, []string{"farm"}, "key-encoding-uniform")
+	// the escrow covers the undistributed budgets only if every way of creating a pool funds it
+	cx.farmOtherCreators(r)
 	amt := "msg.Amount.Amount"
 	// ---------------- Stake
 	{
@@ -311,6 +313,7 @@ func runC06(cx *Ctx, r *Report) {
 		}
 		r.check(ok, "budget-create", "CreatePool", pos, "creator→escrow(total reward) and every rule starts with TotalReward = RemainingReward = that coin of the same total", "pool creation does not fund the escrow with exactly the budget the rules are initialised with")
 	}
+	cx.farmOtherCreators(r)
 	// ---------------- adjust
 	{
 		evs := per["AdjustPool"]
